@@ -329,6 +329,9 @@ OpenFailed(e) ==
   \* not modelled: a second failure before the first is attributed, and failures while several queries wait to be
   \* sent (which of them made the attempt cannot be told from the trace)
   IF openfail # "" \/ Cardinality({id \in DOMAIN q : q[id].st = "tosend"}) > 1 THEN OutOfScope
+  \* a TCP connection attempt that fails while removed servers are still being destroyed: which server's queued
+  \* queries it concerns is not modelled
+  ELSE IF tcpopen /\ Dying # {} THEN OutOfScope
   ELSE openfail' = (IF tcpopen THEN "tcp" ELSE "udp") /\ UNCHANGED <<rvars, toks, tcpin, newtry, bad, why>>
 
 HSk(e) ==
